@@ -602,6 +602,21 @@ func (env *SpecEnv) call(e *SExpr) Val {
 			env.fail(e, "cast of non-interface")
 		}
 		return Val{T: iRef(x.T), Typ: t}
+	case "rlen", "rat", "rval", "rarr":
+		// the reflective view of field `name` of node `parent` (reflect handle model)
+		env.ex.reflKeys()
+		parent, nm := arg(0), arg(1)
+		switch e.Name {
+		case "rlen":
+			return intVal(sLen(env.ex.rHdr(env.cur, parent.T, nm.T)))
+		case "rarr":
+			return intVal(sArr(env.ex.rHdr(env.cur, parent.T, nm.T)))
+		case "rat":
+			h := env.ex.rHdr(env.cur, parent.T, nm.T)
+			return Val{T: sel(sel(u.get(env.cur, rfNode), sArr(h)), cellIdx(sOff(h), arg(2).T)), Typ: types.NewInterfaceType(nil, nil)}
+		default:
+			return Val{T: sel(sel(u.get(env.cur, rfVal), parent.T), nm.T), Typ: types.NewInterfaceType(nil, nil)}
+		}
 	case "allocCounter":
 		u.keySort("next", SInt)
 		return intVal(u.get(env.cur, "next"))
